@@ -158,7 +158,11 @@ def replay(path):
     pid = body["property"]
     mod = prop_module(pid)
     sut.load()
-    fails = mod.judge_scenario(body["scenario"])
+    if body["scenario"].get("kind") == "task_history":
+        part = mod.run_task(body["scenario"]["task"])
+        fails = part["fails"]
+    else:
+        fails = mod.judge_scenario(body["scenario"])
     hit = [x for x in fails if x["oracle"] == body["oracle"]]
     print(f"replay {path}: property={pid} oracle={body['oracle']} repo={sut.repo_rev()}")
     if hit:
@@ -189,7 +193,9 @@ def run_check(pid, tier, seed):
             tasks = mod.plan(tier, seed, wave)
             if not tasks:
                 break
-            for part in run_tasks(pid, tasks, workers):
+            for task, part in zip(tasks, run_tasks(pid, tasks, workers)):
+                for fl in part["fails"]:
+                    fl["task"] = task   # the task that produced it: the replay of last resort (history)
                 merge(total, part)
             wave += 1
             if tier != "thorough" or time.time() - t0 >= budget or len(total["fails"]) > 0:
@@ -276,12 +282,12 @@ def run_check(pid, tier, seed):
         print(f"KNOWN-FINDING: property={pid} {k['what']}")
     print(f"{pid}: evaluations={total['evals']} distinct_nontrivial={distinct} runs={total['runs']} "
           f"events={total['events']} steps={total['steps']} violations={len(violations)} wall={wall:.1f}s")
-    if harness_problems:
-        for p in harness_problems:
-            print(f"HARNESS-ERROR property={pid}: {p}")
-        return 2
+    for p in harness_problems:
+        print(f"HARNESS-ERROR property={pid}: {p}")
     if violations:
-        return 1
+        return 1  # every reported violation was reproduced from its replay file in a fresh interpreter
+    if harness_problems:
+        return 2
     print(f"OK property={pid}")
     return 0
 
@@ -294,7 +300,10 @@ def handle_violation(mod, pid, seed, fl):
     # (1) confirm in this process
     again = [x for x in mod.judge_scenario(scn) if x["oracle"] == fl["oracle"]]
     if not again:
-        raise HarnessError(f"verdict {fl['oracle']} not reproducible in-process; scenario {canon(scn)[:300]}")
+        # the scenario alone does not fail: the verdict may depend on what the same process executed
+        # before it (state left behind by earlier instances).  Fall back to the whole task as the
+        # replay: tasks are deterministic functions of their parameters.
+        return handle_history_violation(mod, pid, seed, fl)
     # (2) minimise
     small = scn
     if hasattr(mod, "minimise"):
@@ -306,23 +315,70 @@ def handle_violation(mod, pid, seed, fl):
     fin = [x for x in mod.judge_scenario(small) if x["oracle"] == fl["oracle"]]
     if not fin:
         small, fin = scn, again
-    # (3) replay file, (4) report
+    # (3) replay file; (4) the file must fail the same way in a fresh interpreter; (5) report
     path = write_replay(pid, seed, fin[0], small, minimised_from=scn)
     if path in _reported:
         return {"path": path, "oracle": fin[0]["oracle"], "sig": fin[0]["sig"]}
-    _reported.add(path)
-    print(f"VIOLATION property={pid} replay={path}")
-    print(f"  oracle {fin[0]['oracle']}: {fin[0].get('detail')}")
-    print(f"  signature {fin[0]['sig']}")
-    # (5) fresh-interpreter replay must fail the same way
     env = dict(os.environ)
     env["PYTHONHASHSEED"] = "1"
     r = subprocess.run([sys.executable, os.path.join(VERIF, "cardsim_main.py"), "replay", path],
                        capture_output=True, text=True, env=env, timeout=600)
     if r.returncode != 1 or "VIOLATION" not in r.stdout:
-        raise HarnessError(f"replay of {path} in a fresh interpreter did not reproduce "
-                           f"(exit {r.returncode}): {r.stdout[-300:]} {r.stderr[-300:]}")
+        # fails here but not in a pristine process: the verdict depends on state left behind by
+        # scenarios this process executed earlier -> replay the producing task as a whole
+        try:
+            os.remove(path)
+        except OSError:
+            pass
+        return handle_history_violation(mod, pid, seed, fl)
+    _reported.add(path)
+    print(f"VIOLATION property={pid} replay={path}")
+    print(f"  oracle {fin[0]['oracle']}: {fin[0].get('detail')}")
+    print(f"  signature {fin[0]['sig']}")
     return {"path": path, "oracle": fin[0]["oracle"], "sig": fin[0]["sig"]}
+
+
+def run_task_fresh(pid, task):
+    """runs one task in a fresh interpreter; returns the list of (oracle, sig, detail) it fails with"""
+    env = dict(os.environ)
+    env["PYTHONHASHSEED"] = "1"
+    r = subprocess.run([sys.executable, os.path.join(VERIF, "cardsim_main.py"), "runtask", pid, json.dumps(task)],
+                       capture_output=True, text=True, env=env, timeout=TASK_TIMEOUT_S)
+    out = []
+    for line in r.stdout.splitlines():
+        if line.startswith("TASKFAIL "):
+            out.append(json.loads(line[9:]))
+    return out, r
+
+
+def handle_history_violation(mod, pid, seed, fl):
+    task = fl.get("task")
+    if task is None:
+        raise HarnessError(f"verdict {fl['oracle']} not reproducible in-process and no task recorded")
+    fails, r = run_task_fresh(pid, task)
+    hit = [x for x in fails if x["oracle"] == fl["oracle"]]
+    if not hit:
+        raise HarnessError(f"verdict {fl['oracle']} reproducible neither as a single scenario nor as its whole task "
+                           f"in a fresh interpreter: {canon(task)[:200]}")
+    scn = {"kind": "task_history", "task": task,
+           "note": "the failing scenario passes when executed alone; the verdict depends on the scenarios the same "
+                   "process executed before it (state left behind by earlier instances), so the whole task is the replay",
+           "last_scenario": fl["scenario"]}
+    path = write_replay(pid, seed, dict(hit[0], sig=hit[0]["sig"]), scn)
+    if path in _reported:
+        return {"path": path, "oracle": hit[0]["oracle"], "sig": hit[0]["sig"]}
+    _reported.add(path)
+    print(f"VIOLATION property={pid} replay={path}")
+    print(f"  oracle {hit[0]['oracle']}: {hit[0].get('detail')}")
+    print(f"  signature {hit[0]['sig']}")
+    print("  (history-dependent: the scenario passes alone; replay re-executes the whole task in a fresh process)")
+    env = dict(os.environ)
+    env["PYTHONHASHSEED"] = "1"
+    rr = subprocess.run([sys.executable, os.path.join(VERIF, "cardsim_main.py"), "replay", path],
+                        capture_output=True, text=True, env=env, timeout=TASK_TIMEOUT_S)
+    if rr.returncode != 1 or "VIOLATION" not in rr.stdout:
+        raise HarnessError(f"history replay of {path} did not reproduce (exit {rr.returncode})")
+    return {"path": path, "oracle": hit[0]["oracle"], "sig": hit[0]["sig"]}
 
 
 def determinism_slice(pid, tier, seed):
